@@ -1,5 +1,5 @@
 (* C04 — serialisation always emits the canonical well-formed form. *)
-From UL Require Import Bytes Subtags LangId Ext Likely Inst Ops Grammar LangIdSpec LocaleInv Canonical LangIdProofs CanonProofs InvProofs TablesData OpsInvProofs LengthProofs RoundTrip.
+From UL Require Import Bytes Subtags LangId Ext Likely Inst Ops Grammar LangIdSpec LocaleInv Canonical LangIdProofs CanonProofs InvProofs TablesData OpsInvProofs LengthProofs LocaleLength RoundTrip.
 
 (* every LanguageIdentifier satisfying the safe-API invariant prints as canonical text: only ASCII
    letters, digits and '-'; language lower, script Title, region UPPER, variants lower, strictly sorted *)
@@ -25,16 +25,30 @@ Proof. exact extmap_parse_inv. Qed.
 Theorem C04_reach_mutation : forall s o s' w, loc_inv s = true -> step the_tables s o = Some (s', w) -> loc_inv s' = true.
 Proof. exact (step_inv the_tables data_full_extend data_wf_ints). Qed.
 
-(* canonicalize(s) is never longer than s (LanguageIdentifier; for Locale this clause is checked on
-   every case by the oracle, not proved) *)
+(* canonicalize(s) is never longer than s: LanguageIdentifier, then Locale *)
 Theorem C04_canonicalize_not_longer : forall s t, li_canonicalize s = Ok t -> (length t <= length s)%nat.
 Proof. exact li_canonicalize_length. Qed.
+Theorem C04_locale_canonicalize_not_longer : forall s t, loc_canonicalize s = Ok t -> (length t <= length s)%nat.
+Proof. exact loc_canonicalize_length. Qed.
+(* Locale canonicalize(s) is exactly to_string of the parsed value, which satisfies the invariant *)
+Theorem C04_locale_canonicalize : forall s t, loc_canonicalize s = Ok t ->
+  exists l, locale_from_bytes s = Ok l /\ t = loc_to_string l /\ loc_inv l = true.
+Proof.
+  intros s t. unfold loc_canonicalize. destruct (locale_from_bytes s) as [l| | |] eqn:E; try discriminate.
+  intros H. injection H as <-. exists l. repeat split. exact (locale_parse_inv _ _ E).
+Qed.
+(* the ExtensionsMap printer prepends the separator, so its output is at most one byte longer *)
+Theorem C04_extmap_not_longer : forall s e, extmap_from_bytes s = Ok e -> (length (ext_to_string e) <= length s + 1)%nat.
+Proof. exact extmap_parse_length. Qed.
 (* the printed form of any invariant-satisfying Locale re-reads as that Locale: it is a well-formed
    identifier, and printing is injective on the invariant *)
 Theorem C04_locale_wellformed : forall l, loc_inv l = true -> locale_from_bytes (loc_to_string l) = Ok l.
 Proof. exact locale_roundtrip. Qed.
 
 Print Assumptions C04_canonicalize_not_longer.
+Print Assumptions C04_locale_canonicalize_not_longer.
+Print Assumptions C04_locale_canonicalize.
+Print Assumptions C04_extmap_not_longer.
 Print Assumptions C04_locale_wellformed.
 Print Assumptions C04_reach_parse_locale.
 Print Assumptions C04_reach_parse_extmap.
